@@ -91,7 +91,7 @@ def affine(n, param):
 
 
 def rows(core):
-    body = core.hir_fn("blots_core::units::get_all_units")["body"]
+    body = core.hir_fn("blots_core::units::get_all_units", inline=False)["body"]
     out = []
     for n in H.walk(body):
         if H.kind(n) == "Call" and (n.get("def") or "").startswith("blots_core::units::Unit::new_"):
